@@ -196,6 +196,7 @@ func checkC18(repo, tier string, verifSeed uint64) int {
 		}
 		exit = 2
 	}
+	ev.expandSamples(b)
 	ev.finish(time.Since(t0).Seconds())
 	if exit != 2 {
 		evPath := filepath.Join(root, "evidence", "C18.json")
